@@ -45,7 +45,8 @@ def run(tier):
     os.makedirs(root, exist_ok=True)
     configs = []
     inputs = {"valid": (["a.pn"], True), "multi": (["main.pn", "lib.pn"], True), "invalid": (["bad.pn"], False), "mixed": (["a.pn", "bad.pn"], False),
-              "dirs": (["top.pn", "geo/util.pn", "audio/util.pn"], True), "hint": (["hint.pn"], False)}
+              "dirs": (["top.pn", "geo/util.pn", "audio/util.pn"], True), "hint": (["hint.pn"], False),
+              "notes": (["notes.pn", "a.pn"], True)}        # a module without declarations (only a comment) is a module
     for sub in ("build", "run", "emit"):
         for inp in inputs:
             opts_space = [("silent", [False, True]), ("verbose", [False, True]), ("color", [None, "never", "always"]), ("arrows", [None, "ascii", "unicode"]),
@@ -66,6 +67,7 @@ def run(tier):
         open(os.path.join(d, "a.pn"), "w").write(VALID_A)
         open(os.path.join(d, "main.pn"), "w").write(VALID_MULTI[0]); open(os.path.join(d, "lib.pn"), "w").write(VALID_MULTI[1])
         open(os.path.join(d, "bad.pn"), "w").write(INVALID); open(os.path.join(d, "hint.pn"), "w").write(INVALID_HINT)
+        open(os.path.join(d, "notes.pn"), "w").write("// notes only: nothing is declared here\n")
         for rel, text in DIRS.items():
             os.makedirs(os.path.dirname(os.path.join(d, rel)) or d, exist_ok=True); open(os.path.join(d, rel), "w").write(text)
         for nm in ("stubF", "stubE", "stubC", "clang", "lli"):
